@@ -460,4 +460,14 @@ def r8_comment_scan(ctx):
         scan.comment_scan(ctx, "R8", F, cfg)
 
 
-RULES = [("R1", r1_dispatch), ("R2", r2_eof_errors), ("R3", r3_scanners), ("R4", r4_delimiters), ("R5", r5_whitespace), ("R6", r6_accessors), ("R7", r7_sources), ("R8", r8_comment_scan)]
+def r9_options_restored(ctx):
+    """Events read after a skip must be lexed under the options the user set: read_to_end's save/restore of
+    trim_text_start on every exit (C12 R1) is re-evaluated here."""
+    import c12
+    n0 = len(ctx.obs)
+    c12.r1_restore(ctx)
+    for o in ctx.obs[n0:]:
+        o["site"] = "read_to_end:" + o["site"]
+        o["rule"] = "R9"
+
+RULES = [("R1", r1_dispatch), ("R2", r2_eof_errors), ("R3", r3_scanners), ("R4", r4_delimiters), ("R5", r5_whitespace), ("R6", r6_accessors), ("R7", r7_sources), ("R8", r8_comment_scan), ("R9", r9_options_restored)]
